@@ -24,14 +24,17 @@ CONSTANTS
  CloseWaits = %(close)s
  MaxRetire = %(retire)d
  RetireDrops = %(drops)s
-INVARIANTS NoPanic PublishedIsOwn AtMostOnce NoUseAfterPut CountsSane CountsExact ExactlyOnceIfData NoPhantom
+ MirrorOn = %(mirror)s
+ MirCap = %(mircap)d
+ MirrorPutsOwn = %(mirown)s
+INVARIANTS NoPanic PublishedIsOwn AtMostOnce NoUseAfterPut CountsSane CountsExact ExactlyOnceIfData NoPhantom MirrorIsCopy MirrorBufHeld
 CHECK_DEADLOCK FALSE
 """
 PROTOS = ["ipfix", "netflow9", "netflow5", "sflow"]
 
 
 def pipe_cfg(**kw):
-    d = dict(dg="MCDgrams", bufs="b1, b2, b3", early="FALSE", alias="FALSE", close="TRUE", retire=0, drops="FALSE")
+    d = dict(dg="MCDgrams", bufs="b1, b2, b3", early="FALSE", alias="FALSE", close="TRUE", retire=0, drops="FALSE", mirror="FALSE", mircap=1, mirown="FALSE")
     d.update(kw)
     return PIPE_CFG % d
 
@@ -114,6 +117,11 @@ def check(ctx, want="C12"):
         d = dict(dg="MCDgrams2", bufs="b1, b2, b3, b4")
         d[sw] = "TRUE" if sw != "close" else "FALSE"
         ctx.tlc_must_fail("PipelineMC", "dev.cfg", files={"dev.cfg": pipe_cfg(**d)}, expect=exp, workers=16)
+    # the mirror branch of the ipfix / sflow workers: copies in pool buffers, mirror queue of capacity 1 (full or not)
+    mb = "b1, b2, b3, b4" if thorough else "b1, b2, b3"
+    ctx.tlc_model("PipelineMC", "mir.cfg", files={"mir.cfg": pipe_cfg(dg="MCDgrams2", bufs=mb, mirror="TRUE")}, timeout=1800, heap="12g")
+    ctx.tlc_must_fail("PipelineMC", "mirdev.cfg", files={"mirdev.cfg": pipe_cfg(dg="MCDgrams2", bufs=mb, mirror="TRUE", mirown="TRUE")},
+                      expect="NoUseAfterPut", workers=16)
     drv = ctx.go_build_test("vflow", ["vflow/pipeline_verif_test.go"])
     jobs = []
     nrun = 10 if thorough else 3
@@ -175,6 +183,8 @@ def check(ctx, want="C12"):
         n = int(m.group(1))
         job, e = index[n - 1]
         what = {"Probe": "the buffer pool handed out a buffer that is still queued or being decoded / encoded by a worker (use after put)",
+                "Recv": "the receive loop was handed a pool buffer in which a datagram still in flight (queued or being decoded) lives",
+                "MirOut": "a copy queued for the mirror workers is not a received datagram, or sits in a buffer the pipeline still holds",
                 "Mar": "a worker encoded a message that is not its own datagram's",
                 "Consume": "the message the producer took from the queue is not (any more) the message that was queued",
                 "Deq": "a worker dequeued something else than the head of the datagram queue",
